@@ -139,6 +139,12 @@ struct Built {
     prog: Program,
     /// the variant is meant to be rejected by the front end
     expect_front_reject: bool,
+    /// further files reachable through #include
+    includes: Vec<(String, String)>,
+    /// defines handed to compile() through the API
+    defines: Vec<(String, String)>,
+    /// control: the file *does* test a target macro, the oracle is expected to flag it
+    control: bool,
 }
 
 pub const VARIANTS: &[&str] = &[
@@ -176,6 +182,16 @@ pub const VARIANTS: &[&str] = &[
     "e-pipe-dup",
     "e-pipe-state",
     "e-pipe-prop",
+    "api-define",
+    "include",
+    "include",
+    "e-include-type",
+    "e-include-parse",
+    "plain",
+    "state",
+    "pp-macros",
+    "ctl-target-macro",
+    "ctl-concat",
 ];
 
 fn decls_of(p: &Program) -> Vec<DeclDesc> {
@@ -271,6 +287,9 @@ fn build(seed: u64, variant: &str) -> Option<Built> {
         }
     }
     let mut decls = decls_of(&prog);
+    let mut includes: Vec<(String, String)> = Vec::new();
+    let mut defines: Vec<(String, String)> = Vec::new();
+    let mut control = false;
     let mut src = render(&prog, &|_| true);
     if seed % 3 == 0 || variant == "state" {
         src = add_state(&src);
@@ -301,6 +320,42 @@ fn build(seed: u64, variant: &str) -> Option<Built> {
         "unbounded" => {
             decls.push(DeclDesc { name: "g_unbounded".into(), kind: "Texture2D".into(), len: "*".into(), ss: false });
             insert_lines(&src, ff, "Texture2D<float4> g_unbounded[];")
+        }
+        "api-define" => {
+            defines.push(("ARRAY_LEN".into(), "2".into()));
+            defines.push(("USE_EXTRA".into(), "1".into()));
+            defines.push(("EXTRA_TYPE".into(), "Texture2D<float4>".into()));
+            decls.push(DeclDesc { name: "g_extra".into(), kind: "Texture2D".into(), len: "2".into(), ss: false });
+            insert_lines(&src, ff, "#if USE_EXTRA && defined(ARRAY_LEN)\nEXTRA_TYPE g_extra[ARRAY_LEN];\n#else\nthis branch is dead (\n#endif")
+        }
+        "include" | "e-include-type" | "e-include-parse" => {
+            // declarations go to an included file (included twice, guarded by #pragma once), functions stay
+            let lines: Vec<&str> = src.lines().collect();
+            let mut common = String::from("#pragma once\n");
+            for l in &lines[..ff] {
+                common.push_str(l);
+                common.push('\n');
+            }
+            match variant {
+                "e-include-type" => common.push_str("static NoSuchType g_in_include;\n"),
+                "e-include-parse" => common.push_str("static int g_in_include = (;\n"),
+                _ => {}
+            }
+            let mut main = String::from("#include \"common/decls.rssl\"\n#include \"common/decls.rssl\"\n");
+            for l in &lines[ff..] {
+                main.push_str(l);
+                main.push('\n');
+            }
+            includes.push(("common/decls.rssl".into(), common));
+            main
+        }
+        "ctl-target-macro" => {
+            control = true;
+            format!("{}#if RSSL_TARGET_MSL\nstatic NoSuchType g_only_on_metal;\n#endif\n", src)
+        }
+        "ctl-concat" => {
+            control = true;
+            format!("#define CAT(a, b) a##b\n{}#if CAT(RSSL_TARGET_, MSL)\nstatic NoSuchType g_only_on_metal;\n#endif\n", src)
         }
         "e-lex-top" => insert_lines(&src, 1, "static int bad_char = 1 ` 2;"),
         "e-lex-end" => format!("{}static int bad_number = 12abc34;\n", src),
@@ -345,7 +400,7 @@ fn build(seed: u64, variant: &str) -> Option<Built> {
     if variant == "e-pp-unterminated" {
         expect_front_reject = true;
     }
-    Some(Built { src, decls, prog, expect_front_reject })
+    Some(Built { src, decls, prog, expect_front_reject, includes, defines, control })
 }
 
 // ------------------------------------------------------------------------------------------------ oracle helpers
@@ -468,9 +523,11 @@ fn run_cross(seed: u64, variant: &str, out: &mut Out, hist: &mut Hist) {
         out.case(&format!("C18.cross\t{}\t{}\t\t\t", seed, variant), "", "SKIP:unknown variant");
         return;
     };
-    let files = [("main.rssl".to_string(), b.src.clone())];
+    let mut files = vec![("main.rssl".to_string(), b.src.clone())];
+    files.extend(b.includes.iter().cloned());
+    let defs: Vec<(&str, &str)> = b.defines.iter().map(|(a, c)| (a.as_str(), c.as_str())).collect();
     let results: Vec<(Tgt, Verdict)> =
-        ALL_TARGETS.iter().map(|t| (*t, compile_info(&files, &[], *t, &Mode::All))).collect();
+        ALL_TARGETS.iter().map(|t| (*t, compile_info(&files, &defs, *t, &Mode::All))).collect();
     let decls: Vec<String> =
         b.decls.iter().map(|d| format!("{}:{}:{}:{}", d.name, d.kind, d.len, if d.ss { 1 } else { 0 })).collect();
     let pipe_names: Vec<String> = b.prog.pipes.iter().map(|p| p.name.clone()).collect();
@@ -641,6 +698,17 @@ fn run_cross(seed: u64, variant: &str, out: &mut Out, hist: &mut Hist) {
         hist.add(&format!("diag={}", k));
     }
     fails.dedup();
+    if b.control {
+        // the file tests a target macro on purpose: the oracle has to notice
+        let oracle = if fails.iter().any(|f| f.starts_with("front-end verdict differs")) {
+            hist.add("control-detected");
+            "ok".to_string()
+        } else {
+            "FAIL:control file that tests RSSL_TARGET_MSL was not told apart".to_string()
+        };
+        out.case(&req, &obs, &oracle);
+        return;
+    }
     let oracle = if fails.is_empty() { "ok".to_string() } else { format!("FAIL:{}", fails[0]) };
     out.case(&req, &obs, &oracle);
 }
@@ -912,9 +980,14 @@ pub fn run(args: &Args, out: &mut Out) {
         if let (Ok(seed), Some(b)) = (args.extra[1].parse::<u64>(), build(args.extra[1].parse().unwrap_or(0), &args.extra[2])) {
             let _ = seed;
             println!("{}", b.src);
-            let files = [("main.rssl".to_string(), b.src.clone())];
+            let mut files = vec![("main.rssl".to_string(), b.src.clone())];
+            files.extend(b.includes.iter().cloned());
+            for (n, c) in &b.includes {
+                println!("---- {}\n{}", n, c);
+            }
+            let defs: Vec<(&str, &str)> = b.defines.iter().map(|(a, c)| (a.as_str(), c.as_str())).collect();
             for t in ALL_TARGETS {
-                match compile_info(&files, &[], t, &Mode::All) {
+                match compile_info(&files, &defs, t, &Mode::All) {
                     Verdict::Ok(ps) => {
                         for p in ps {
                             println!("==== {} {:?} {}\n{:?}\n{}", t.name(), p.stages, p.state, p.bindings, p.text);
